@@ -40,12 +40,12 @@ func init() { streams["derive"] = runDerive }
 
 // ---- capture writer ---------------------------------------------------------------------------
 
-type capWriter struct {
+type drvCapWriter struct {
 	mu    sync.Mutex
 	lines [][]byte
 }
 
-func (w *capWriter) Write(p []byte) (int, error) {
+func (w *drvCapWriter) Write(p []byte) (int, error) {
 	w.mu.Lock()
 	w.lines = append(w.lines, append([]byte(nil), p...))
 	w.mu.Unlock()
@@ -53,7 +53,7 @@ func (w *capWriter) Write(p []byte) (int, error) {
 }
 
 // take returns everything written since the last take (concatenated) and the number of Writes.
-func (w *capWriter) take() ([]byte, int) {
+func (w *drvCapWriter) take() ([]byte, int) {
 	w.mu.Lock()
 	defer w.mu.Unlock()
 	var out []byte
@@ -67,19 +67,19 @@ func (w *capWriter) take() ([]byte, int) {
 
 // ---- attribute specs (serialisable, so that histories replay and shrink) --------------------------
 
-type attrSpec struct {
+type drvAttrSpec struct {
 	K string     `json:"k"`
 	T string     `json:"t"` // s string | i int | b bool | g group | v LogValuer resolving to a group
 	S string     `json:"s,omitempty"`
 	I int64      `json:"i,omitempty"`
-	G []attrSpec `json:"g,omitempty"`
+	G []drvAttrSpec `json:"g,omitempty"`
 }
 
-type groupValuer struct{ as []slog.Attr }
+type drvGroupValuer struct{ as []slog.Attr }
 
-func (g groupValuer) LogValue() slog.Value { return slog.GroupValue(g.as...) }
+func (g drvGroupValuer) LogValue() slog.Value { return slog.GroupValue(g.as...) }
 
-func (a attrSpec) build() slog.Attr {
+func (a drvAttrSpec) build() slog.Attr {
 	switch a.T {
 	case "s":
 		return slog.String(a.K, a.S)
@@ -88,13 +88,13 @@ func (a attrSpec) build() slog.Attr {
 	case "b":
 		return slog.Bool(a.K, a.I != 0)
 	case "g":
-		return slog.Attr{Key: a.K, Value: slog.GroupValue(buildAttrs(a.G)...)}
+		return slog.Attr{Key: a.K, Value: slog.GroupValue(drvBuildAttrs(a.G)...)}
 	default: // "v"
-		return slog.Any(a.K, groupValuer{buildAttrs(a.G)})
+		return slog.Any(a.K, drvGroupValuer{drvBuildAttrs(a.G)})
 	}
 }
 
-func buildAttrs(as []attrSpec) []slog.Attr {
+func drvBuildAttrs(as []drvAttrSpec) []slog.Attr {
 	out := make([]slog.Attr, len(as))
 	for i, a := range as {
 		out[i] = a.build()
@@ -102,13 +102,13 @@ func buildAttrs(as []attrSpec) []slog.Attr {
 	return out
 }
 
-// forRecord wraps top-level empty groups in a LogValuer: slog.Record.AddAttrs drops empty groups
+// drvForRecord wraps top-level empty groups in a LogValuer: slog.Record.AddAttrs drops empty groups
 // before any repo code runs (DESIGN §8.1/§8.2), a LogValuer resolving to one reaches the handler.
-func forRecord(as []slog.Attr) []slog.Attr {
+func drvForRecord(as []slog.Attr) []slog.Attr {
 	out := make([]slog.Attr, len(as))
 	for i, a := range as {
 		if a.Value.Kind() == slog.KindGroup && len(a.Value.Group()) == 0 {
-			a = slog.Any(a.Key, groupValuer{nil})
+			a = slog.Any(a.Key, drvGroupValuer{nil})
 		}
 		out[i] = a
 	}
@@ -119,7 +119,7 @@ var deriveKeys = []string{"k", "a", "id", "user", "a.b", "with space", "q\"t", "
 
 const deriveAlphabet = "abcdefghijklmnopqrstuvwxy0123456789 _-./:=\"\\{}[],"
 
-func genString(r *Rng) string {
+func drvGenString(r *Rng) string {
 	var n int
 	switch r.Intn(10) {
 	case 0:
@@ -140,19 +140,19 @@ func genString(r *Rng) string {
 	return string(b)
 }
 
-func genAttr(r *Rng, depth int, s *Stream) attrSpec {
+func drvGenAttr(r *Rng, depth int, s *Stream) drvAttrSpec {
 	k := Pick(r, deriveKeys)
 	c := r.Intn(100)
 	switch {
 	case c < 35:
 		s.Count("attr.string")
-		return attrSpec{K: k, T: "s", S: genString(r)}
+		return drvAttrSpec{K: k, T: "s", S: drvGenString(r)}
 	case c < 60:
 		s.Count("attr.int")
-		return attrSpec{K: k, T: "i", I: int64(r.U64()) >> uint(r.Intn(64))}
+		return drvAttrSpec{K: k, T: "i", I: int64(r.U64()) >> uint(r.Intn(64))}
 	case c < 65:
 		s.Count("attr.bool")
-		return attrSpec{K: k, T: "b", I: int64(r.Intn(2))}
+		return drvAttrSpec{K: k, T: "b", I: int64(r.Intn(2))}
 	}
 	t := "g"
 	if r.Chance(25) {
@@ -165,9 +165,9 @@ func genAttr(r *Rng, depth int, s *Stream) attrSpec {
 	if depth < 3 && !r.Chance(25) {
 		n = 1 + r.Intn(3)
 	}
-	g := make([]attrSpec, n)
+	g := make([]drvAttrSpec, n)
 	for i := range g {
-		g[i] = genAttr(r, depth+1, s)
+		g[i] = drvGenAttr(r, depth+1, s)
 	}
 	switch {
 	case n == 0 && k == "":
@@ -179,14 +179,14 @@ func genAttr(r *Rng, depth int, s *Stream) attrSpec {
 	default:
 		s.Count("attr.group.keyed")
 	}
-	return attrSpec{K: k, T: t, G: g}
+	return drvAttrSpec{K: k, T: t, G: g}
 }
 
-func genAttrs(r *Rng, lo, hi int, s *Stream) []attrSpec {
+func drvGenAttrs(r *Rng, lo, hi int, s *Stream) []drvAttrSpec {
 	n := lo + r.Intn(hi-lo+1)
-	out := make([]attrSpec, n)
+	out := make([]drvAttrSpec, n)
 	for i := range out {
-		out[i] = genAttr(r, 0, s)
+		out[i] = drvGenAttr(r, 0, s)
 	}
 	return out
 }
@@ -197,7 +197,7 @@ var deriveKinds = []string{"json", "text", "nano"}
 
 var deriveTime = time.Date(2024, 1, 2, 3, 4, 5, 678901234, time.UTC)
 
-func newRootHandler(kind string, w *capWriter, colorful bool) logger.Handler {
+func drvNewRootHandler(kind string, w *drvCapWriter, colorful bool) logger.Handler {
 	opts := logger.NewOptions(logger.LevelDebug, colorful, false)
 	switch kind {
 	case "json":
@@ -209,53 +209,53 @@ func newRootHandler(kind string, w *capWriter, colorful bool) logger.Handler {
 }
 
 // one derivation of a chain
-type chainOp struct {
+type drvChainOp struct {
 	Group bool       `json:"group,omitempty"`
 	Name  string     `json:"name,omitempty"`
-	Attrs []attrSpec `json:"attrs,omitempty"`
+	Attrs []drvAttrSpec `json:"attrs,omitempty"`
 }
 
-func applyChain(h logger.Handler, chain []chainOp) logger.Handler {
+func drvApplyChain(h logger.Handler, chain []drvChainOp) logger.Handler {
 	for _, c := range chain {
 		if c.Group {
 			h = h.WithGroup(c.Name)
 		} else {
-			h = h.WithAttrs(buildAttrs(c.Attrs))
+			h = h.WithAttrs(drvBuildAttrs(c.Attrs))
 		}
 	}
 	return h
 }
 
-type recSpec struct {
+type drvRecSpec struct {
 	Level int        `json:"level"`
 	Msg   string     `json:"msg"`
-	Attrs []attrSpec `json:"attrs,omitempty"`
+	Attrs []drvAttrSpec `json:"attrs,omitempty"`
 }
 
-func (rs recSpec) record(withAttrs bool) slog.Record {
+func (rs drvRecSpec) record(withAttrs bool) slog.Record {
 	r := slog.NewRecord(deriveTime, slog.Level(rs.Level), rs.Msg, 0)
 	if withAttrs {
-		r.AddAttrs(buildAttrs(rs.Attrs)...)
+		r.AddAttrs(drvBuildAttrs(rs.Attrs)...)
 	}
 	return r
 }
 
-// handleLine calls Handle once and returns what reached the writer.
-func handleLine(h logger.Handler, w *capWriter, r slog.Record) ([]byte, int) {
+// drvHandleLine calls Handle once and returns what reached the writer.
+func drvHandleLine(h logger.Handler, w *drvCapWriter, r slog.Record) ([]byte, int) {
 	w.take()
 	h.Handle(context.Background(), r)
 	return w.take()
 }
 
-// aloneLine: a logger built ALONE from a fresh root by replaying just this chain.
-func aloneLine(kind string, colorful bool, chain []chainOp, r slog.Record) []byte {
-	w := &capWriter{}
-	h := applyChain(newRootHandler(kind, w, colorful), chain)
-	line, _ := handleLine(h, w, r)
+// drvAloneLine: a logger built ALONE from a fresh root by replaying just this chain.
+func drvAloneLine(kind string, colorful bool, chain []drvChainOp, r slog.Record) []byte {
+	w := &drvCapWriter{}
+	h := drvApplyChain(drvNewRootHandler(kind, w, colorful), chain)
+	line, _ := drvHandleLine(h, w, r)
 	return line
 }
 
-func closersLen(kind string, chain []chainOp) int {
+func drvClosersLen(kind string, chain []drvChainOp) int {
 	if kind != "json" {
 		return 1
 	}
@@ -269,7 +269,7 @@ func closersLen(kind string, chain []chainOp) int {
 }
 
 // shapeOf computes the model's shape string from the chain and the measured chunks.
-type shapeTrack struct {
+type drvShapeTrack struct {
 	kind   string
 	nOpen  int
 	addSep bool
@@ -277,9 +277,9 @@ type shapeTrack struct {
 	preLen int
 }
 
-func rootTrack(kind string) shapeTrack { return shapeTrack{kind: kind, addSep: true} }
+func drvRootTrack(kind string) drvShapeTrack { return drvShapeTrack{kind: kind, addSep: true} }
 
-func (t shapeTrack) String() string {
+func (t drvShapeTrack) String() string {
 	switch t.kind {
 	case "json":
 		return fmt.Sprintf("json:%d:%v", t.nOpen, t.addSep)
@@ -289,7 +289,7 @@ func (t shapeTrack) String() string {
 	return "nano"
 }
 
-func (t shapeTrack) after(c chainOp, chunk []byte) shapeTrack {
+func (t drvShapeTrack) after(c drvChainOp, chunk []byte) drvShapeTrack {
 	t.preLen += len(chunk)
 	if c.Group {
 		switch t.kind {
@@ -311,8 +311,8 @@ func (t shapeTrack) after(c chainOp, chunk []byte) shapeTrack {
 	return t
 }
 
-// stripTime cuts the time value out of a line (Logger.Log stamps time.Now()).
-func stripTime(kind string, line []byte) ([]byte, bool) {
+// drvStripTime cuts the time value out of a line (Logger.Log stamps time.Now()).
+func drvStripTime(kind string, line []byte) ([]byte, bool) {
 	switch kind {
 	case "json":
 		const p = `{"time":"`
@@ -340,42 +340,42 @@ func stripTime(kind string, line []byte) ([]byte, bool) {
 	return line[19:], true
 }
 
-var goSizeClasses = map[int]bool{}
+var drvGoSizeClasses = map[int]bool{}
 
 func init() {
 	for _, c := range []int{0, 8, 16, 24, 32, 48, 64, 80, 96, 112, 128, 144, 160, 176, 192, 208, 224, 240, 256, 288, 320, 352,
 		384, 416, 448, 480, 512, 576, 640, 704, 768, 896, 1024, 1152, 1280, 1408, 1536, 1792, 2048, 2304,
 		2688, 3072, 3200, 3456, 4096, 4864, 5120, 5376, 6144, 6528, 6784, 6912, 8192, 9472, 9728, 10240,
 		10880, 12288, 13568, 14336, 16384, 18432, 19072, 20480, 21760, 24576, 27264, 28672, 32768} {
-		goSizeClasses[c] = true
+		drvGoSizeClasses[c] = true
 	}
 }
 
-// hasSpare: the capacity of a grown []byte is always a malloc size class (or a page multiple), so
+// drvHasSpare: the capacity of a grown []byte is always a malloc size class (or a page multiple), so
 // a length that is not one proves cap > len.
-func hasSpare(preLen int) bool {
-	return preLen > 0 && !goSizeClasses[preLen] && !(preLen > 32768 && preLen%8192 == 0)
+func drvHasSpare(preLen int) bool {
+	return preLen > 0 && !drvGoSizeClasses[preLen] && !(preLen > 32768 && preLen%8192 == 0)
 }
 
 // ---- histories --------------------------------------------------------------------------------
 
-type dOp struct {
+type drvOp struct {
 	Op     string     `json:"op"` // attrs | group | log
 	Node   int        `json:"node"`
 	New    int        `json:"new,omitempty"` // label of the node a derivation creates
-	Attrs  []attrSpec `json:"attrs,omitempty"`
+	Attrs  []drvAttrSpec `json:"attrs,omitempty"`
 	Name   string     `json:"name,omitempty"`
-	Rec    *recSpec   `json:"rec,omitempty"`
+	Rec    *drvRecSpec   `json:"rec,omitempty"`
 	ViaLog bool       `json:"via_logger,omitempty"` // log through Logger.Log instead of Handler.Handle
 }
 
-type dNode struct {
+type drvNode struct {
 	label    int
 	parent   int
-	chain    []chainOp
+	chain    []drvChainOp
 	h        logger.Handler
 	lg       *logger.Logger // parallel tree built with Logger.With / Logger.WithGroup (nil: not expressible)
-	track    shapeTrack
+	track    drvShapeTrack
 	depth    int
 	children int
 	born     int // index of the op that created it
@@ -391,19 +391,19 @@ type deriveFailure struct {
 type deriveHistory struct {
 	Kind     string `json:"kind"`
 	Colorful bool   `json:"colorful"`
-	Ops      []dOp  `json:"ops"`
+	Ops      []drvOp  `json:"ops"`
 }
 
-// execHistory runs a history on the real code. Operations naming an unknown label are skipped (so
+// drvExecHistory runs a history on the real code. Operations naming an unknown label are skipped (so
 // that shrinking may delete any subset). emit (optional) receives the op / impl line pairs.
-func execHistory(hist deriveHistory, s *Stream, emit bool) *deriveFailure {
+func drvExecHistory(hist deriveHistory, s *Stream, emit bool) *deriveFailure {
 	kind, colorful := hist.Kind, hist.Colorful
-	w := &capWriter{}
-	rootH := newRootHandler(kind, w, colorful)
-	nodes := map[int]*dNode{0: {label: 0, parent: -1, h: rootH, lg: logger.New(rootH), track: rootTrack(kind)}}
+	w := &drvCapWriter{}
+	rootH := drvNewRootHandler(kind, w, colorful)
+	nodes := map[int]*drvNode{0: {label: 0, parent: -1, h: rootH, lg: logger.New(rootH), track: drvRootTrack(kind)}}
 	modelID := map[int]int{0: 0} // label → handle number in the model
 	nextModel := 1
-	empty := recSpec{Level: int(logger.LevelInfo)}
+	empty := drvRecSpec{Level: int(logger.LevelInfo)}
 	var fail *deriveFailure
 	failf := func(at int, k, format string, a ...any) {
 		if fail == nil {
@@ -426,18 +426,18 @@ func execHistory(hist deriveHistory, s *Stream, emit bool) *deriveFailure {
 			if _, dup := nodes[op.New]; dup {
 				continue
 			}
-			c := chainOp{Group: op.Op == "group", Name: op.Name, Attrs: op.Attrs}
-			n := &dNode{label: op.New, parent: p.label, depth: p.depth + 1, born: idx,
-				chain: append(append([]chainOp{}, p.chain...), c)}
+			c := drvChainOp{Group: op.Op == "group", Name: op.Name, Attrs: op.Attrs}
+			n := &drvNode{label: op.New, parent: p.label, depth: p.depth + 1, born: idx,
+				chain: append(append([]drvChainOp{}, p.chain...), c)}
 			// the parent's line before and after: the derivation must not change it
-			before, _ := handleLine(p.h, w, empty.record(false))
+			before, _ := drvHandleLine(p.h, w, empty.record(false))
 			if c.Group {
 				n.h = p.h.WithGroup(c.Name)
 				if p.lg != nil && c.Name != "" {
 					n.lg = p.lg.WithGroup(c.Name)
 				}
 			} else {
-				as := buildAttrs(c.Attrs)
+				as := drvBuildAttrs(c.Attrs)
 				n.h = p.h.WithAttrs(as)
 				if p.lg != nil {
 					args := make([]any, len(as))
@@ -447,12 +447,12 @@ func execHistory(hist deriveHistory, s *Stream, emit bool) *deriveFailure {
 					n.lg = p.lg.With(args...)
 				}
 			}
-			after, _ := handleLine(p.h, w, empty.record(false))
+			after, _ := drvHandleLine(p.h, w, empty.record(false))
 			if !bytes.Equal(before, after) {
 				failf(idx, "derive-changed-parent", "deriving from node %d changed its line for the empty record: %q -> %q", p.label, before, after)
 			}
-			child, _ := handleLine(n.h, w, empty.record(false))
-			pc, cc := closersLen(kind, p.chain), closersLen(kind, n.chain)
+			child, _ := drvHandleLine(n.h, w, empty.record(false))
+			pc, cc := drvClosersLen(kind, p.chain), drvClosersLen(kind, n.chain)
 			var chunk []byte
 			if len(before) < pc || len(child) < cc || !bytes.HasPrefix(child[:len(child)-cc], before[:len(before)-pc]) {
 				failf(idx, "child-not-extension", "child line %q does not extend parent line %q", child, before)
@@ -471,7 +471,7 @@ func execHistory(hist deriveHistory, s *Stream, emit bool) *deriveFailure {
 			nextModel++
 			if s != nil && emit {
 				s.Count(fmt.Sprintf("derive.%s.depth%d", op.Op, n.depth))
-				if p.label != 0 && hasSpare(p.track.preLen) {
+				if p.label != 0 && drvHasSpare(p.track.preLen) {
 					s.Count("derive.from-nonroot-parent-with-spare-capacity")
 				}
 			}
@@ -493,11 +493,11 @@ func execHistory(hist deriveHistory, s *Stream, emit bool) *deriveFailure {
 			// with_is_prepend at the handler boundary
 			if !c.Group && op.Rec != nil {
 				r1 := op.Rec.record(true)
-				got, _ := handleLine(n.h, w, r1)
+				got, _ := drvHandleLine(n.h, w, r1)
 				r2 := op.Rec.record(false)
-				r2.AddAttrs(forRecord(buildAttrs(c.Attrs))...)
-				r2.AddAttrs(buildAttrs(op.Rec.Attrs)...)
-				want, _ := handleLine(p.h, w, r2)
+				r2.AddAttrs(drvForRecord(drvBuildAttrs(c.Attrs))...)
+				r2.AddAttrs(drvBuildAttrs(op.Rec.Attrs)...)
+				want, _ := drvHandleLine(p.h, w, r2)
 				if s != nil && emit {
 					s.Evaluations++
 					s.Count("with-is-prepend")
@@ -511,19 +511,19 @@ func execHistory(hist deriveHistory, s *Stream, emit bool) *deriveFailure {
 				continue
 			}
 			r := op.Rec.record(true)
-			want := aloneLine(kind, colorful, p.chain, r)
+			want := drvAloneLine(kind, colorful, p.chain, r)
 			var got []byte
 			var nw int
 			if op.ViaLog && p.lg != nil {
 				w.take()
 				args := make([]any, len(op.Rec.Attrs))
-				for i, a := range buildAttrs(op.Rec.Attrs) {
+				for i, a := range drvBuildAttrs(op.Rec.Attrs) {
 					args[i] = a
 				}
 				p.lg.Log(context.Background(), slog.Level(op.Rec.Level), op.Rec.Msg, args...)
 				got, nw = w.take()
-				g2, ok1 := stripTime(kind, got)
-				w2, ok2 := stripTime(kind, want)
+				g2, ok1 := drvStripTime(kind, got)
+				w2, ok2 := drvStripTime(kind, want)
 				if !ok1 || !ok2 || !bytes.Equal(g2, w2) {
 					failf(idx, "isolation", "node %d through Logger.Log wrote %q, a logger built alone from its chain writes %q (time fields ignored)", p.label, got, want)
 				}
@@ -531,15 +531,15 @@ func execHistory(hist deriveHistory, s *Stream, emit bool) *deriveFailure {
 					s.Count("log.via-logger")
 				}
 			} else {
-				got, nw = handleLine(p.h, w, r)
+				got, nw = drvHandleLine(p.h, w, r)
 				if !bytes.Equal(got, want) {
 					failf(idx, "isolation", "node %d wrote %q, a logger built alone from its chain writes %q", p.label, got, want)
 				}
 				// model side: header and record part measured on isolated loggers
-				rootLine := aloneLine(kind, colorful, nil, op.Rec.record(false))
-				alone0 := aloneLine(kind, colorful, p.chain, op.Rec.record(false))
-				cl := closersLen(kind, p.chain)
-				hd := rootLine[:len(rootLine)-closersLen(kind, nil)]
+				rootLine := drvAloneLine(kind, colorful, nil, op.Rec.record(false))
+				alone0 := drvAloneLine(kind, colorful, p.chain, op.Rec.record(false))
+				cl := drvClosersLen(kind, p.chain)
+				hd := rootLine[:len(rootLine)-drvClosersLen(kind, nil)]
 				if len(alone0) >= cl && len(want) >= len(alone0) {
 					rec := want[len(alone0)-cl : len(want)-cl]
 					wrote := 0
@@ -559,8 +559,8 @@ func execHistory(hist deriveHistory, s *Stream, emit bool) *deriveFailure {
 				s.Evaluations++
 				s.Count(fmt.Sprintf("log.%s.depth%d", kind, p.depth))
 				par := nodes[p.parent]
-				if par != nil && par.label != 0 && par.children >= 2 && hasSpare(par.track.preLen) && p.lastSib > p.born {
-					s.Nontrivial(lineKey(kind, got))
+				if par != nil && par.label != 0 && par.children >= 2 && drvHasSpare(par.track.preLen) && p.lastSib > p.born {
+					s.Nontrivial(drvLineKey(kind, got))
 				}
 			}
 		}
@@ -568,33 +568,33 @@ func execHistory(hist deriveHistory, s *Stream, emit bool) *deriveFailure {
 	return fail
 }
 
-func deriveHistoryFails(hist deriveHistory) func([]dOp) bool {
-	return func(ops []dOp) bool {
+func deriveHistoryFails(hist deriveHistory) func([]drvOp) bool {
+	return func(ops []drvOp) bool {
 		h := hist
 		h.Ops = ops
-		return execHistory(h, nil, false) != nil
+		return drvExecHistory(h, nil, false) != nil
 	}
 }
 
-// shrinkAttrs minimises the attribute lists and string values of an already op-minimal history.
-func shrinkAttrs(hist deriveHistory) deriveHistory {
-	fails := func(h deriveHistory) bool { return execHistory(h, nil, false) != nil }
+// drvShrinkAttrs minimises the attribute lists and string values of an already op-minimal history.
+func drvShrinkAttrs(hist deriveHistory) deriveHistory {
+	fails := func(h deriveHistory) bool { return drvExecHistory(h, nil, false) != nil }
 	clone := func(h deriveHistory) deriveHistory {
 		c := h
-		c.Ops = make([]dOp, len(h.Ops))
+		c.Ops = make([]drvOp, len(h.Ops))
 		for i, o := range h.Ops {
 			c.Ops[i] = o
-			c.Ops[i].Attrs = append([]attrSpec{}, o.Attrs...)
+			c.Ops[i].Attrs = append([]drvAttrSpec{}, o.Attrs...)
 			if o.Rec != nil {
 				r := *o.Rec
-				r.Attrs = append([]attrSpec{}, o.Rec.Attrs...)
+				r.Attrs = append([]drvAttrSpec{}, o.Rec.Attrs...)
 				c.Ops[i].Rec = &r
 			}
 		}
 		return c
 	}
-	lists := func(h *deriveHistory, i int) []*[]attrSpec {
-		out := []*[]attrSpec{&h.Ops[i].Attrs}
+	lists := func(h *deriveHistory, i int) []*[]drvAttrSpec {
+		out := []*[]drvAttrSpec{&h.Ops[i].Attrs}
 		if h.Ops[i].Rec != nil {
 			out = append(out, &h.Ops[i].Rec.Attrs)
 		}
@@ -610,7 +610,7 @@ func shrinkAttrs(hist deriveHistory) deriveHistory {
 					if !(hist.Ops[i].Op != "log" && li == 0 && len(cur) == 1) {
 						c := clone(hist)
 						l := lists(&c, i)[li]
-						*l = append(append([]attrSpec{}, (*l)[:j]...), (*l)[j+1:]...)
+						*l = append(append([]drvAttrSpec{}, (*l)[:j]...), (*l)[j+1:]...)
 						if fails(c) {
 							hist, progressed = c, true
 							break
@@ -627,7 +627,7 @@ func shrinkAttrs(hist deriveHistory) deriveHistory {
 					}
 					if (cur[j].T == "g" || cur[j].T == "v") && len(cur[j].G) > 0 {
 						c := clone(hist)
-						(*lists(&c, i)[li])[j] = attrSpec{K: "k", T: "s", S: "v"}
+						(*lists(&c, i)[li])[j] = drvAttrSpec{K: "k", T: "s", S: "v"}
 						if fails(c) {
 							hist, progressed = c, true
 							break
@@ -657,24 +657,24 @@ func shrinkAttrs(hist deriveHistory) deriveHistory {
 	return hist
 }
 
-// genHistory plans a random derivation tree with interleaved logs.
-func genHistory(r *Rng, kind string, nOps int, s *Stream) deriveHistory {
+// drvGenHistory plans a random derivation tree with interleaved logs.
+func drvGenHistory(r *Rng, kind string, nOps int, s *Stream) deriveHistory {
 	hist := deriveHistory{Kind: kind, Colorful: r.Chance(20)}
 	type plan struct{ depth, children int }
 	nodes := []plan{{0, 0}}
-	newRec := func() *recSpec {
+	newRec := func() *drvRecSpec {
 		lv := []slog.Level{logger.LevelDebug, logger.LevelInfo, logger.LevelWarn, logger.LevelError, logger.LevelFatal}
 		msg := ""
 		if !r.Chance(15) {
-			msg = genString(r)
+			msg = drvGenString(r)
 			if len(msg) > 60 {
 				msg = msg[:60]
 			}
 		}
-		return &recSpec{Level: int(Pick(r, lv)), Msg: msg, Attrs: genAttrs(r, 0, 3, s)}
+		return &drvRecSpec{Level: int(Pick(r, lv)), Msg: msg, Attrs: drvGenAttrs(r, 0, 3, s)}
 	}
 	derive := func(parent int, forceAttrs bool) int {
-		op := dOp{Node: parent, New: len(nodes)}
+		op := drvOp{Node: parent, New: len(nodes)}
 		if !forceAttrs && r.Chance(25) {
 			op.Op = "group"
 			op.Name = Pick(r, []string{"g", "grp", "a.b", "with space", "req", "ключ"})
@@ -687,10 +687,10 @@ func genHistory(r *Rng, kind string, nOps int, s *Stream) deriveHistory {
 			if !forceAttrs && r.Chance(4) {
 				lo = 0
 			}
-			op.Attrs = genAttrs(r, lo, 3, s)
+			op.Attrs = drvGenAttrs(r, lo, 3, s)
 			if forceAttrs {
 				// make sure the buffer is non-empty whatever the handler elides
-				op.Attrs = append(op.Attrs, attrSpec{K: "k", T: "s", S: genString(r)})
+				op.Attrs = append(op.Attrs, drvAttrSpec{K: "k", T: "s", S: drvGenString(r)})
 			}
 			if r.Chance(60) {
 				op.Rec = newRec()
@@ -702,7 +702,7 @@ func genHistory(r *Rng, kind string, nOps int, s *Stream) deriveHistory {
 		return op.New
 	}
 	logOn := func(n int) {
-		hist.Ops = append(hist.Ops, dOp{Op: "log", Node: n, Rec: newRec(), ViaLog: r.Chance(25)})
+		hist.Ops = append(hist.Ops, drvOp{Op: "log", Node: n, Rec: newRec(), ViaLog: r.Chance(25)})
 	}
 	// the history every test misses: a non-root parent carrying attributes, two children, and the
 	// first child used after the second one was derived
@@ -746,22 +746,22 @@ func genHistory(r *Rng, kind string, nOps int, s *Stream) deriveHistory {
 
 // ---- concurrent rounds ------------------------------------------------------------------------
 
-type concNode struct {
-	parent *concNode
-	op     chainOp
+type drvConcNode struct {
+	parent *drvConcNode
+	op     drvChainOp
 	h      logger.Handler
 	lg     *logger.Logger
-	chain  []chainOp
+	chain  []drvChainOp
 }
 
-type concLog struct {
-	node   *concNode
-	rec    recSpec
+type drvConcLog struct {
+	node   *drvConcNode
+	rec    drvRecSpec
 	viaLog bool
 	id     string
 }
 
-func attrsAsArgs(as []slog.Attr) []any {
+func drvAttrsAsArgs(as []slog.Attr) []any {
 	args := make([]any, len(as))
 	for i, a := range as {
 		args[i] = a
@@ -770,32 +770,32 @@ func attrsAsArgs(as []slog.Attr) []any {
 }
 
 // deriveConc derives a child (handler and Logger wrapper) from p.
-func deriveConc(p *concNode, co chainOp) *concNode {
-	n := &concNode{parent: p, op: co, chain: append(append([]chainOp{}, p.chain...), co)}
+func deriveConc(p *drvConcNode, co drvChainOp) *drvConcNode {
+	n := &drvConcNode{parent: p, op: co, chain: append(append([]drvChainOp{}, p.chain...), co)}
 	if co.Group {
 		n.h, n.lg = p.h.WithGroup(co.Name), p.lg.WithGroup(co.Name)
 	} else {
-		as := buildAttrs(co.Attrs)
-		n.h, n.lg = p.h.WithAttrs(as), p.lg.With(attrsAsArgs(as)...)
+		as := drvBuildAttrs(co.Attrs)
+		n.h, n.lg = p.h.WithAttrs(as), p.lg.With(drvAttrsAsArgs(as)...)
 	}
 	return n
 }
 
-func concurrentRound(s *Stream, r *Rng, kind string, round int) {
+func drvConcurrentRound(s *Stream, r *Rng, kind string, round int) {
 	colorful := r.Chance(20)
-	w := &capWriter{}
-	rootH := newRootHandler(kind, w, colorful)
+	w := &drvCapWriter{}
+	rootH := drvNewRootHandler(kind, w, colorful)
 	quiet := &Stream{Dist: map[string]int{}, Distinct: map[string]int{}}
-	root := &concNode{h: rootH, lg: logger.New(rootH)}
+	root := &drvConcNode{h: rootH, lg: logger.New(rootH)}
 	// shared parent: 1..3 derivations, the last one with attributes (spare capacity very likely)
-	var sharedPath []*concNode
+	var sharedPath []*drvConcNode
 	shared := root
 	for i, n := 0, 1+r.Intn(3); i < n; i++ {
-		var co chainOp
+		var co drvChainOp
 		if i < n-1 && r.Chance(30) {
-			co = chainOp{Group: true, Name: Pick(r, []string{"g", "req", "a.b"})}
+			co = drvChainOp{Group: true, Name: Pick(r, []string{"g", "req", "a.b"})}
 		} else {
-			co = chainOp{Attrs: append(genAttrs(r, 1, 3, quiet), attrSpec{K: "k", T: "s", S: genString(r)})}
+			co = drvChainOp{Attrs: append(drvGenAttrs(r, 1, 3, quiet), drvAttrSpec{K: "k", T: "s", S: drvGenString(r)})}
 		}
 		shared = deriveConc(shared, co)
 		sharedPath = append(sharedPath, shared)
@@ -806,8 +806,8 @@ func concurrentRound(s *Stream, r *Rng, kind string, round int) {
 	for g := range rngs {
 		rngs[g] = r.Fork()
 	}
-	logs := make([][]concLog, G)
-	derived := make([][]*concNode, G)
+	logs := make([][]drvConcLog, G)
+	derived := make([][]*drvConcNode, G)
 	var wg sync.WaitGroup
 	start := make(chan struct{})
 	for g := 0; g < G; g++ {
@@ -816,7 +816,7 @@ func concurrentRound(s *Stream, r *Rng, kind string, round int) {
 			defer wg.Done()
 			rg := rngs[g]
 			q := &Stream{Dist: map[string]int{}, Distinct: map[string]int{}}
-			var own []*concNode
+			var own []*drvConcNode
 			<-start
 			for k := 0; k < K; k++ {
 				c := rg.Intn(100)
@@ -829,11 +829,11 @@ func concurrentRound(s *Stream, r *Rng, kind string, round int) {
 					if len(p.chain) >= 5 {
 						p = shared
 					}
-					var co chainOp
+					var co drvChainOp
 					if rg.Chance(20) {
-						co = chainOp{Group: true, Name: Pick(rg, []string{"g", "sub", "x.y"})}
+						co = drvChainOp{Group: true, Name: Pick(rg, []string{"g", "sub", "x.y"})}
 					} else {
-						co = chainOp{Attrs: genAttrs(rg, 1, 3, q)}
+						co = drvChainOp{Attrs: drvGenAttrs(rg, 1, 3, q)}
 					}
 					own = append(own, deriveConc(p, co))
 				default: // log through the shared parent or an own node
@@ -842,14 +842,14 @@ func concurrentRound(s *Stream, r *Rng, kind string, round int) {
 						n = Pick(rg, own)
 					}
 					id := fmt.Sprintf("IDZ%04dZ%02dZ%03dZ", round, g, k)
-					rec := recSpec{Level: int(logger.LevelInfo), Msg: id, Attrs: genAttrs(rg, 0, 2, q)}
+					rec := drvRecSpec{Level: int(logger.LevelInfo), Msg: id, Attrs: drvGenAttrs(rg, 0, 2, q)}
 					via := rg.Chance(30)
 					if via {
-						n.lg.Log(context.Background(), slog.Level(rec.Level), rec.Msg, attrsAsArgs(buildAttrs(rec.Attrs))...)
+						n.lg.Log(context.Background(), slog.Level(rec.Level), rec.Msg, drvAttrsAsArgs(drvBuildAttrs(rec.Attrs))...)
 					} else {
 						n.h.Handle(context.Background(), rec.record(true))
 					}
-					logs[g] = append(logs[g], concLog{n, rec, via, id})
+					logs[g] = append(logs[g], drvConcLog{n, rec, via, id})
 				}
 			}
 			derived[g] = own
@@ -881,15 +881,15 @@ func concurrentRound(s *Stream, r *Rng, kind string, round int) {
 	// model side: serialise the round (isolation says the order does not matter); the appended
 	// chunks are measured on the REAL nodes after the concurrent phase
 	s.Line("root "+kind, "0")
-	handle := map[*concNode]int{root: 0}
-	tracks := map[*concNode]shapeTrack{root: rootTrack(kind)}
+	handle := map[*drvConcNode]int{root: 0}
+	tracks := map[*drvConcNode]drvShapeTrack{root: drvRootTrack(kind)}
 	next := 1
-	empty := recSpec{Level: int(logger.LevelInfo)}
-	register := func(n *concNode) {
+	empty := drvRecSpec{Level: int(logger.LevelInfo)}
+	register := func(n *drvConcNode) {
 		p := n.parent
-		pl, _ := handleLine(p.h, w, empty.record(false))
-		cl, _ := handleLine(n.h, w, empty.record(false))
-		pc, cc := closersLen(kind, p.chain), closersLen(kind, n.chain)
+		pl, _ := drvHandleLine(p.h, w, empty.record(false))
+		cl, _ := drvHandleLine(n.h, w, empty.record(false))
+		pc, cc := drvClosersLen(kind, p.chain), drvClosersLen(kind, n.chain)
 		var chunk []byte
 		if len(cl) >= cc && len(pl) >= pc && bytes.HasPrefix(cl[:len(cl)-cc], pl[:len(pl)-pc]) {
 			chunk = cl[len(pl)-pc : len(cl)-cc]
@@ -921,7 +921,7 @@ func concurrentRound(s *Stream, r *Rng, kind string, round int) {
 			register(n)
 		}
 	}
-	if hasSpare(tracks[shared].preLen) {
+	if drvHasSpare(tracks[shared].preLen) {
 		s.Count("concurrent.shared-parent-with-spare-capacity")
 	}
 	for g := 0; g < G; g++ {
@@ -929,27 +929,27 @@ func concurrentRound(s *Stream, r *Rng, kind string, round int) {
 			s.Evaluations++
 			s.Count("concurrent.log." + kind)
 			got := byID[lg.id]
-			want := aloneLine(kind, colorful, lg.node.chain, lg.rec.record(true))
+			want := drvAloneLine(kind, colorful, lg.node.chain, lg.rec.record(true))
 			if len(got) != 1 {
 				s.Violate("isolation", fmt.Sprintf("record %s was written %d times", lg.id, len(got)), replay())
 				continue
 			}
 			a, b, ok1, ok2 := got[0], want, true, true
 			if lg.viaLog {
-				a, ok1 = stripTime(kind, a)
-				b, ok2 = stripTime(kind, b)
+				a, ok1 = drvStripTime(kind, a)
+				b, ok2 = drvStripTime(kind, b)
 			}
 			if !ok1 || !ok2 || !bytes.Equal(a, b) {
 				s.Violate("isolation", fmt.Sprintf("concurrent mode: chain of %d derivations wrote %q, a logger built alone from that chain writes %q", len(lg.node.chain), got[0], want), replay())
 				continue
 			}
-			s.Nontrivial(lineKey(kind, a))
+			s.Nontrivial(drvLineKey(kind, a))
 			if !lg.viaLog {
-				rootLine := aloneLine(kind, colorful, nil, lg.rec.record(false))
-				alone0 := aloneLine(kind, colorful, lg.node.chain, lg.rec.record(false))
-				cl := closersLen(kind, lg.node.chain)
+				rootLine := drvAloneLine(kind, colorful, nil, lg.rec.record(false))
+				alone0 := drvAloneLine(kind, colorful, lg.node.chain, lg.rec.record(false))
+				cl := drvClosersLen(kind, lg.node.chain)
 				if len(alone0) >= cl && len(want) >= len(alone0) {
-					hd := rootLine[:len(rootLine)-closersLen(kind, nil)]
+					hd := rootLine[:len(rootLine)-drvClosersLen(kind, nil)]
 					rec := want[len(alone0)-cl : len(want)-cl]
 					wrote := 0
 					if len(rec) > 0 {
@@ -963,7 +963,7 @@ func concurrentRound(s *Stream, r *Rng, kind string, round int) {
 	s.Count(fmt.Sprintf("concurrent.goroutines.%d", G))
 }
 
-func lineKey(kind string, line []byte) string {
+func drvLineKey(kind string, line []byte) string {
 	h := fnv.New64a()
 	h.Write(line)
 	return fmt.Sprintf("%s|%d|%016x", kind, len(line), h.Sum64())
@@ -980,15 +980,15 @@ func runDerive(cfg Cfg) {
 	for i := 0; i < nHist; i++ {
 		r := rng.Fork()
 		kind := deriveKinds[i%3]
-		hist := genHistory(r, kind, 12+r.Intn(cfg.N(50, 80)), s)
-		if f := execHistory(hist, s, true); f != nil {
+		hist := drvGenHistory(r, kind, 12+r.Intn(cfg.N(50, 80)), s)
+		if f := drvExecHistory(hist, s, true); f != nil {
 			ops := hist.Ops[:f.at+1]
 			if len(s.Violations) < 3 {
 				ops = ddmin(ops, deriveHistoryFails(hist))
 				hist.Ops = ops
-				hist = shrinkAttrs(hist)
+				hist = drvShrinkAttrs(hist)
 				ops = hist.Ops
-				if f2 := execHistory(hist, nil, false); f2 != nil {
+				if f2 := drvExecHistory(hist, nil, false); f2 != nil {
 					f = f2
 				}
 			}
@@ -1002,7 +1002,7 @@ func runDerive(cfg Cfg) {
 	}
 	nConc := cfg.N(150, 3000)
 	for i := 0; i < nConc; i++ {
-		concurrentRound(s, rng.Fork(), deriveKinds[i%3], i)
+		drvConcurrentRound(s, rng.Fork(), deriveKinds[i%3], i)
 	}
 	s.Traces = nHist + nConc
 	keys := sortedKeys(s.Dist)
